@@ -54,7 +54,8 @@ theorem Eb_int (hy : Hyp cfg sh) (m : Meta) (v : Int) : EbStmt cfg sh pc (.int m
   rw [parsePrimary]
   simp [unOp, tok, Token.is]
   rw [parsePrimaryExpression]
-  simp [next, hy.int_rt, mk_of_inv hc.1, Int.toNat_of_nonneg hc.2]
+  have hlt : v.toNat < 2 ^ 63 := by omega
+  simp [next, hy.int_rt _ hlt, mk_of_inv hc.1, Int.toNat_of_nonneg hc.2.1]
 
 theorem Eb_float (hy : Hyp cfg sh) (m : Meta) (b : UInt64) : EbStmt cfg sh pc (.float m b) := by
   refine Eb_of_primary cfg sh pc (T := tok .number (sh.showFloat b) m.loc) (fun _ _ _ => by simp [body]) ?_
